@@ -85,6 +85,8 @@ val forallb : ('a1 -> bool) -> 'a1 list -> bool
 
 val filter : ('a1 -> bool) -> 'a1 list -> 'a1 list
 
+val find : ('a1 -> bool) -> 'a1 list -> 'a1 option
+
 val combine : 'a1 list -> 'a2 list -> ('a1 * 'a2) list
 
 val firstn : nat -> 'a1 list -> 'a1 list
@@ -251,7 +253,17 @@ module N :
 type ascii =
 | Ascii of bool * bool * bool * bool * bool * bool * bool * bool
 
+val zero : ascii
+
+val one : ascii
+
+val shift : bool -> ascii -> ascii
+
 val eqb1 : ascii -> ascii -> bool
+
+val ascii_of_pos : positive -> ascii
+
+val ascii_of_N : n -> ascii
 
 val n_of_digits : bool list -> n
 
@@ -320,6 +332,8 @@ type string =
 
 val eqb2 : string -> string -> bool
 
+val append : string -> string -> string
+
 type bits = bool list
 
 val n_of_bits : bits -> n
@@ -383,6 +397,8 @@ val eFuel : n
 val pIndex : n
 
 val pSlice : n
+
+val pMakeSlice : n
 
 val pNil : n
 
@@ -2737,5 +2753,514 @@ val run_method : sx -> sx
 val run_valid : sx -> sx
 
 val run_unquote : sx -> sx
+
+type bytes1 = n list
+
+type ty0 =
+| TInt0
+| TNat
+| TLong
+| TInt256
+| TBytes
+| TString
+| TBool0
+| TTrue
+| TVector of ty0
+| TBare of string
+| TBoxed of string
+
+type field = { fname : string; fcond : (string * n) option; fty : ty0 }
+
+type decl = { dname : string; did : n; dfields : field list; dres : string }
+
+type schema0 = decl list
+
+type value0 =
+| VNum of n
+| VBytes of bytes1
+| VBool0 of bool
+| VVec of value0 list
+| VRec of string * (string * value0) list
+
+type naming = { lbl : (string -> string); blbl : (decl -> string);
+                xlbl : (decl -> string) }
+
+val le_bytes : nat -> n -> bytes1
+
+val le_num : bytes1 -> n
+
+val is_byte : n -> bool
+
+val all_bytes : bytes1 -> bool
+
+val split_at : nat -> bytes1 -> (bytes1 * bytes1) option
+
+val split_atN : n -> bytes1 -> (bytes1 * bytes1) option
+
+val pad_of : n -> nat
+
+val bytes_header : n -> bytes1
+
+val enc_bytes : bytes1 -> bytes1
+
+val all_zero : bytes1 -> bool
+
+val dec_bytes : bytes1 -> (bytes1 * bytes1) option
+
+val bool_true_id : n
+
+val bool_false_id : n
+
+val enc_bool : bool -> bytes1
+
+val assoc : string -> (string * 'a1) list -> 'a1 option
+
+val enc_list : (value0 -> bytes1 option) -> value0 list -> bytes1 option
+
+val dec_pos :
+  (bytes1 -> (value0 * bytes1) option) -> positive -> value0 list -> bytes1
+  -> (value0 list * bytes1) option
+
+val dec_count :
+  (bytes1 -> (value0 * bytes1) option) -> n -> bytes1 -> (value0
+  list * bytes1) option
+
+val present : (string * n) list -> field -> bool option
+
+val env_add : field -> value0 -> (string * n) list -> (string * n) list
+
+val is_true_ty : ty0 -> bool
+
+val enc_fields :
+  naming -> (ty0 -> value0 -> bytes1 option) -> field list ->
+  (string * value0) list -> (string * n) list -> bytes1 option
+
+val dec_fields :
+  naming -> (ty0 -> bytes1 -> (value0 * bytes1) option) -> field list ->
+  (string * n) list -> bytes1 -> ((string * value0) list * bytes1) option
+
+val find_ctor : schema0 -> string -> decl option
+
+val ctors_of : schema0 -> string -> decl list
+
+val two1 : n
+
+val two2 : n
+
+val two24 : n
+
+val enc0 : naming -> schema0 -> nat -> ty0 -> value0 -> bytes1 option
+
+val dec0 :
+  naming -> schema0 -> nat -> ty0 -> bytes1 -> (value0 * bytes1) option
+
+val tl_fuel : nat
+
+val tl_encode : naming -> schema0 -> ty0 -> value0 -> bytes1 option
+
+val tl_decode : naming -> schema0 -> ty0 -> bytes1 -> (value0 * bytes1) option
+
+val enc_args : naming -> schema0 -> nat -> decl -> value0 -> bytes1 option
+
+val dec_args :
+  naming -> schema0 -> nat -> decl -> bytes1 -> (value0 * bytes1) option
+
+val tl_request : naming -> schema0 -> decl -> value0 -> bytes1 option
+
+val eEof : n
+
+val eInvalid : n
+
+val eModel : n
+
+type gty =
+| GU32
+| GU64
+| GBool
+| GBytes
+| GString
+| GInt256
+| GSlice of gty
+| GPtr of gty
+| GNamed of string
+| GStruct of (string * gty) list
+| GSumTag
+| GOther of string
+
+type access = string list * (gty * bool) option
+
+type stmt =
+| Field of access
+| IfBit of string * n * access list
+| WriteTag of n
+| ReadTag of n
+| Self of string
+| Unrecognised of string
+
+type mbody =
+| MPlain of stmt list
+| MSwitch of (string * stmt list) list
+| MNone
+
+type ubody =
+| UPlain of stmt list
+| USwitch of ((n * string) * stmt list) list
+
+type binding = { b_name : string; b_type : gty; b_marshal : mbody;
+                 b_unmarshal : ubody }
+
+type bindings = binding list
+
+type method0 = { m_name : string; m_req : string option; m_req_id : n;
+                 m_err_id : n; m_resp_ids : n list; m_resp_ty : string;
+                 m_shape : bool }
+
+val find_binding : bindings -> string -> binding option
+
+val field_ty : gty -> string list -> gty option
+
+val align_up : n -> n -> n
+
+val gsize_al : nat -> bindings -> gty -> n * n
+
+val gsize : bindings -> gty -> n
+
+type st = { inp : bytes1; alloc : n; peak : n }
+
+type 'a m = st -> 'a res * st
+
+val mret : 'a1 -> 'a1 m
+
+val mfail : n -> 'a1 m
+
+val mbind : 'a1 m -> ('a1 -> 'a2 m) -> 'a2 m
+
+val read_full0 : nat -> bytes1 m
+
+val read_fullN : n -> bytes1 m
+
+val max_alloc : n
+
+val make : n -> n -> unit m
+
+val max_prealloc : n
+
+val read_byte_slice : bytes1 m
+
+val iter_pos : value0 m -> positive -> value0 list -> value0 list m
+
+val decode_vector : value0 m -> n -> value0 m
+
+type record = (string * value0) list
+
+val mode_of : record -> string -> n
+
+val last_of : string list -> string list -> string option
+
+val run_uaccess :
+  (gty -> value0 m) -> gty -> string list -> access -> record -> record m
+
+val run_uaccesses :
+  (gty -> value0 m) -> gty -> string list -> access list -> record -> record m
+
+val run_ustmt :
+  (gty -> value0 m) -> gty -> string list -> stmt -> record -> record m
+
+val run_ustmts :
+  (gty -> value0 m) -> gty -> string list -> stmt list -> record -> record m
+
+val find_ucase :
+  n -> ((n * string) * stmt list) list -> (string * stmt list) option
+
+val run_unmarshal : (gty -> value0 m) -> binding -> value0 m
+
+val dec_struct :
+  (gty -> value0 m) -> (string * gty) list -> record -> record m
+
+val gdec : bindings -> nat -> gty -> value0 m
+
+val st0 : bytes1 -> st
+
+val go_fuel : nat
+
+val go_unmarshal : bindings -> gty -> bytes1 -> value0 res * st
+
+val go_encode_length : n -> bytes1
+
+val go_zero_padding : bytes1 -> bytes1
+
+val go_bytes : bytes1 -> bytes1
+
+val concat_res : bytes1 res list -> bytes1 res
+
+val run_maccess :
+  (gty -> value0 option -> bytes1 res) -> gty -> string list -> access ->
+  record -> bytes1 res
+
+val run_mstmt :
+  (gty -> value0 option -> bytes1 res) -> gty -> string list -> value0 ->
+  record -> stmt -> bytes1 res
+
+val run_mstmts :
+  (gty -> value0 option -> bytes1 res) -> gty -> string list -> value0 ->
+  record -> stmt list -> bytes1 res
+
+val run_marshal0 :
+  (gty -> value0 option -> bytes1 res) -> binding -> value0 -> bytes1 res
+
+val has_marshaler : bindings -> gty -> bool
+
+val genc : bindings -> nat -> gty -> value0 option -> bytes1 res
+
+val go_marshal : bindings -> gty -> value0 -> bytes1 res
+
+val go_request : bindings -> method0 -> value0 option -> bytes1 res
+
+type response =
+| RError of value0
+| RResult of value0
+
+val go_response : bindings -> method0 -> bytes1 -> response res
+
+type tst = { t_inp : bytes1; t_alloc : n; t_steps : n }
+
+type 'a t = tst -> 'a res * tst
+
+val tret : 'a1 -> 'a1 t
+
+val tfail : n -> 'a1 t
+
+val tbind : 'a1 t -> ('a1 -> 'a2 t) -> 'a2 t
+
+val tlen : tst -> n
+
+val rd_full : nat -> bytes1 t
+
+val rd_fullN : n -> bytes1 t
+
+val charge : n -> unit t
+
+val tick : unit t
+
+val mk : n -> n -> unit t
+
+val max_prealloc0 : n
+
+val mk_read : n -> bytes1 t
+
+val read_n0 : n -> bytes1 t
+
+val read_byte_sliceT : bytes1 t
+
+val append_charge : n -> n
+
+val vec_elem : value0 t -> n -> value0 t
+
+val iter_posT : value0 t -> positive -> value0 list -> value0 list t
+
+val decode_vectorT : value0 t -> n -> value0 t
+
+val acc_ty : gty -> string list -> access -> ((string * gty) * bool) option
+
+val run_uaccessT :
+  bindings -> (gty -> value0 t) -> gty -> string list -> access -> record ->
+  record t
+
+val run_uaccessesT :
+  bindings -> (gty -> value0 t) -> gty -> string list -> access list ->
+  record -> record t
+
+val run_ustmtT :
+  bindings -> (gty -> value0 t) -> gty -> string list -> stmt -> record ->
+  record t
+
+val run_ustmtsT :
+  bindings -> (gty -> value0 t) -> gty -> string list -> stmt list -> record
+  -> record t
+
+val run_unmarshalT : bindings -> (gty -> value0 t) -> binding -> value0 t
+
+val dec_structT :
+  (gty -> value0 t) -> (string * gty) list -> record -> record t
+
+val gdecT : bindings -> nat -> gty -> value0 t
+
+val tst0 : bytes1 -> tst
+
+val tl_unmarshal0 : bindings -> nat -> gty -> bytes1 -> value0 res * tst
+
+type xtree =
+| XT of n * bits * xtree list
+
+val k_PRUNED : n
+
+val k_LIBRARY : n
+
+type xs = { xb : bits; xr : xtree list }
+
+val xtake_bits : nat -> xs -> (bits * xs) res
+
+val xtake_ref : xs -> (xtree * xs) res
+
+val enter : xtree -> bool -> xs option res
+
+val xunary : nat -> bits -> bits res
+
+val xdec : ty list -> nat -> ty -> xs -> n -> (xs * n) res
+
+val xunmarshal : ty list -> nat -> ty -> xtree -> (xs * n) res
+
+val eFrame : n
+
+val slice_from : nat -> bytes -> bytes res
+
+val slice_to : n -> bytes -> bytes res
+
+val index0 : 'a1 list -> 'a1 res
+
+val index_at : nat -> 'a1 list -> 'a1 res
+
+val decode_length : bytes -> (n * bytes) res
+
+val process_query_answer : bool -> bytes -> bytes res
+
+val max_packet : n
+
+val parse_packet0 : (bytes -> bytes) -> bytes -> ((bytes * bytes) * n) res
+
+val vmstack_after_tl_gen :
+  (node list -> nat -> unit res) -> bool -> bytes -> unit res
+
+val vmstack_after_tl : (node list -> nat -> unit res) -> bytes -> unit res
+
+val parse_contract_methods_gen :
+  (node list -> nat -> unit res) -> bool -> bytes -> unit res
+
+val parse_contract_methods :
+  (node list -> nat -> unit res) -> bytes -> unit res
+
+val account_from_proof :
+  (node list -> nat -> unit res) -> nat -> nat -> nat option -> bytes -> unit
+  res
+
+val tl_bindings : bindings
+
+val tl_methods : method0 list
+
+val tl_request_table : (((n * n) * string) * string) list
+
+val h08_fuel : nat
+
+val basic_ty : string -> gty option
+
+val run_tl0 : sx -> sx
+
+val ty_of_sx : nat -> sx -> ty option
+
+val xtree_of_sx : nat -> sx -> xtree option
+
+val run_tlb0 : sx -> sx
+
+val out_unit0 : unit res -> sx
+
+val run_declen : sx -> sx
+
+val run_answer : sx -> sx
+
+val run_packet : sx -> sx
+
+val ok_root : node list -> nat -> unit res
+
+val run_vmstack : sx -> sx
+
+val run_methods : sx -> sx
+
+val run_accproof : sx -> sx
+
+val is_up : ascii -> bool
+
+val is_low : ascii -> bool
+
+val is_digit0 : ascii -> bool
+
+val to_up : ascii -> ascii
+
+val is_sep : ascii -> bool
+
+val camel_go : string -> bool -> string
+
+val camel : string -> string
+
+val single : schema0 -> decl -> bool
+
+val go_naming : schema0 -> naming
+
+val cname : decl -> string
+
+val tl_types : decl list
+
+val tl_functions : decl list
+
+val atom_of : string -> sx
+
+val name_of : string -> string
+
+val sx_of_value : value0 -> sx
+
+val value_of_sx : sx -> value0 option
+
+val bytes_eqb1 : bytes1 -> bytes1 -> bool
+
+val value_eqb : value0 -> value0 -> bool
+
+val gonm : naming
+
+type target =
+| TType of ty0
+| TArgs of decl
+
+val spec_target : string -> target option
+
+val spec_enc : string -> value0 -> bytes1 option
+
+val spec_dec : string -> bytes1 -> (value0 * bytes1) option
+
+val out_bytes : bytes1 res -> sx
+
+val marshal_gen : bool -> sx -> sx
+
+val run_marshal_any : sx -> sx
+
+val run_marshal_canon : sx -> sx
+
+val out_unmarshal : (value0 res * st) -> sx
+
+val unmarshal_gen : bool -> sx -> sx
+
+val run_unmarshal_any : sx -> sx
+
+val run_unmarshal_canon : sx -> sx
+
+val string_of_bytes : bytes1 -> string
+
+val bytes_of_string0 : string -> bytes1
+
+val run_reqdecode : sx -> sx
+
+val out_response : response res -> sx
+
+val spec_function : string -> decl option
+
+val spec_request_ok : string -> value0 option -> bytes1 -> bool
+
+val spec_response_ok : string -> bytes1 -> response res -> bool
+
+val run_request : sx -> sx
+
+val run_enclen : sx -> sx
+
+val run_sizeof : sx -> sx
+
+val run_camel : sx -> sx
 
 val run : string -> sx -> sx
